@@ -29,12 +29,12 @@ Definition site_out {A} (k : kind) (l : list (str * A)) : list (str * A) :=
 Local Open Scope string_scope.
 Definition modelled_sites : list ((string * string * string * string) * kind) :=
   [ (("goag/specification", "GetSecurity", "sr : SecurityRequirement", "13ea5fd1"), KDead);
-    (("goag/specification", "NewComponents", "spec.Parameters : ParametersMap", "cebb0345"), KIntoMap);
+    (("goag/specification", "NewComponents", "spec.Parameters : ParametersMap", "01e76cf8"), KIntoMap);
     (("goag/specification", "NewSchema", "required : map[string]struct{}", "9d46b06c"), KErrorOnly);
     (("goag/specification", "NewSchema", "schema.ExtensionProps.Extensions : map[string]interface{}", "f159cebc"), KIntoMap);
     (("goag/specification", "NewSecurityRequirements", "sr : SecurityRequirement", "90c28e7b"), KAtMostOne);
-    (("goag/specification", "sortedKeys", "m : map[string]T", "e979cfd1"), KSorted);
-    (("goag", "Generator.Generate", "s.Variables : map[string]*ServerVariable", "d58336ef"), KSorted) ].
+    (("goag/specification", "sortedKeys", "m : map[string]T", "af6a6e8b"), KSorted);
+    (("goag", "Generator.Generate", "s.Variables : map[string]*ServerVariable", "3b5ce473"), KSorted) ].
 
 (* other sources of nondeterminism that are accounted for:
    os.ReadDir (GenerateDir: entries are returned sorted by filename),
